@@ -1,7 +1,10 @@
 #!/bin/bash
-# copies the harness API template into every harness package (package clause adjusted)
+# copies the harness API templates (_api/*.tmpl) into every harness package (package clause adjusted)
 cd "$(dirname "$0")/../harness"
 for f in $(find . -name zz_verif_api.go); do
+  dir=$(dirname $f)
   pkg=$(grep -m1 '^package ' $f | awk '{print $2}')
-  sed "s/^package PKGNAME/package $pkg/" _api/zz_verif_api.go.tmpl > $f
+  for t in _api/*.go.tmpl; do
+    sed "s/^package PKGNAME/package $pkg/" $t > $dir/$(basename $t .tmpl)
+  done
 done
